@@ -295,12 +295,18 @@ mod bytes_support {
 
         #[cfg(feature = "unicode")]
         fn tokenize_unicode_words(&self) -> Vec<&Self> {
-            self.words_with_breaks().map(|x| x.as_bytes()).collect()
+            // slice the input rather than using the yielded strings: for
+            // invalid UTF-8 bstr yields the replacement character instead
+            self.words_with_break_indices()
+                .map(|(start, end, _)| &self[start..end])
+                .collect()
         }
 
         #[cfg(feature = "unicode")]
         fn tokenize_graphemes(&self) -> Vec<&Self> {
-            self.graphemes().map(|x| x.as_bytes()).collect()
+            self.grapheme_indices()
+                .map(|(start, end, _)| &self[start..end])
+                .collect()
         }
 
         fn tokenize_chars(&self) -> Vec<&Self> {
